@@ -484,7 +484,7 @@ impl Prop for Framing {
             .into()
     }
     fn cases(&self, tier: Tier) -> u32 {
-        tier.pick(24, 600)
+        tier.pick(240, 6_000)
     }
     fn max_threads(&self) -> usize {
         4
